@@ -160,15 +160,27 @@ func (c *c12ctx) eval(fn *ssa.Function, args []eng.CVal, st *c12state) (*eng.Con
 		}
 		return false
 	}
+	hasSlot := func(args []eng.CVal) bool {
+		for _, a := range args {
+			if a.K == eng.CSym && strings.HasPrefix(a.S, "slot:") {
+				return true
+			}
+		}
+		return false
+	}
 	ev.InlineArgs = func(callee *ssa.Function, args []eng.CVal) bool {
 		if core.FnPkgPath(callee) != mod+"/"+c12Lines {
 			return false
 		}
-		if hasData(args) {
+		if hasData(args) || hasSlot(args) {
 			return true
 		}
-		res := callee.Signature.Results()
-		return res.Len() == 1 && namedTypeQual(res.At(0).Type()) == mod+"/xy/lineintersection.Type"
+		// helpers of the case analysis (predicates, classifiers) are evaluated; a helper that returns a coordinate
+		// without seeing the record is a computation and yields a fresh symbol
+		if ok, _ := returnsCoord(callee); ok {
+			return false
+		}
+		return true
 	}
 	problem := func(s string) {
 		for _, o := range st.problems {
@@ -181,6 +193,11 @@ func (c *c12ctx) eval(fn *ssa.Function, args []eng.CVal, st *c12state) (*eng.Con
 	ev.OverrideIn = func(act *eng.CEResult, v ssa.Value, args []eng.CVal) (eng.CVal, bool) {
 		switch x := v.(type) {
 		case *ssa.UnOp:
+			if x.Op == token.MUL {
+				if k := c.slotOf(act, x.X); strings.HasPrefix(k, "pt") {
+					return eng.SymV("slot:" + k), true
+				}
+			}
 			if x.Op == token.MUL && c.lines != nil {
 				if k := c.slotOf(act, x.X); strings.HasPrefix(k, "line") {
 					var i, j int
@@ -340,7 +357,7 @@ func (c *c12ctx) eval(fn *ssa.Function, args []eng.CVal, st *c12state) (*eng.Con
 		}
 		return eng.CVal{}, false
 	}
-	act := ev.Run(fn, args)
+	act := ev.RunStable(fn, args)
 	return ev, act
 }
 
